@@ -96,7 +96,9 @@ class Ctx:
         return self.tier == "thorough"
 
     def n(self, quick: int, thorough: int) -> int:
-        return thorough if self.thorough else quick
+        # when the translator could not re-derive the model (fallback to the golden model), the correspondence
+        # carries the whole tie and runs with the thorough case counts
+        return thorough if (self.thorough or getattr(self, "fallback", False)) else quick
 
     def count(self, tag: str, k: int = 1):
         self.hist[tag] = self.hist.get(tag, 0) + k
@@ -172,6 +174,19 @@ def lean_run_file(path: Path, stdin: str | None = None, timeout=3000) -> tuple[i
         cwd=LEAN, input=stdin, capture_output=True, text=True, timeout=timeout,
     )
     return p.returncode, p.stdout, p.stderr
+
+
+def restore_golden(prop: str) -> list[str]:
+    """copy lean/golden/Gen/X.lean over lean/SparkxVerif/Gen/X.lean for every Gen module the property imports"""
+    ob = obligations(prop)
+    out = []
+    for f in import_closure(list(ob["modules"]) + list(ob.get("driver_modules", []))):
+        if f.parent.name == "Gen":
+            g = LEAN / "golden" / "Gen" / f.name
+            if g.exists():
+                write_if_changed(f, g.read_text())
+                out.append(f.name)
+    return out
 
 
 def obligations(prop: str) -> dict:
@@ -315,7 +330,17 @@ def standard_flow(ctx: Ctx, mod):
         try:
             regions = mod.translate(ctx) or []
         except Exception as e:  # extractor could not understand the source
-            ctx.brk("translator-broken", f"{type(e).__name__}: {e}", trace=traceback.format_exc()[-1500:])
+            # DESIGN 2.1 (i): the committed golden model takes over; if it still corresponds to the code on the
+            # (enlarged) correspondence run and the oracle finds nothing, the theorems about it still speak about
+            # the code and the run passes with tie = correspondence-only.
+            restored = restore_golden(prop)
+            ctx.fallback = True
+            ctx.cov["tie"] = "correspondence-only (translator could not re-derive: %s: %s)" % (type(e).__name__, str(e)[:300])
+            ctx.cov["golden_restored"] = restored
+            ctx.notes.append("translator could not parse the source; golden model used: " + ", ".join(restored))
+            if not restored:
+                ctx.brk("translator-broken", f"{type(e).__name__}: {e} (no golden model to fall back to)",
+                        trace=traceback.format_exc()[-1500:])
     ctx.cov["translator_regions"] = regions
     # 2. proofs
     targets = list(ob["modules"]) + list(ob.get("driver_modules", []))
